@@ -276,7 +276,9 @@ def r3_size_agreement(ctx):
         if ctx.floor('add_free_region in deallocate', len(ad), 1):
             sz = simp(fd.expr_operand(ad[0].args[2], ad[0].b, 'T'))
             pt = simp(fd.expr_operand(ad[0].args[1], ad[0].b, 'T'))
-            ctx.check(any(x[0] == 'call' and x[1] == IN + '::size_align' for x in walk(sz)) and any(x[0] == 'arg' and x[-1] == 'ptr' for x in walk(pt)), 'free-extent',
+            szp = peel(sz)
+            exact = szp[0] == 'field' and szp[2] == '0' and peel(szp[1])[0] == 'call' and peel(szp[1])[1] == IN + '::size_align'
+            ctx.check(exact and any(x[0] == 'arg' and x[-1] == 'ptr' for x in walk(pt)), 'free-extent',
                       'deallocate returns exactly the block (ptr, normalised size) to the free list', ad[0].where())
     fn = ctx.anchor(LB + '::new_in')
     fdrop = ctx.anchor('<%s as std::ops::Drop>::drop' % LB)
